@@ -150,19 +150,27 @@ struct Array {
 
     void operator+=(Type_T &&item) {
         if (Size() == Capacity()) {
+            // item can be an element of this array: take it before the storage moves.
+            Type_T tmp{Memory::Move(item)};
             resize((Capacity() | (Capacity() == 0)) * SizeT{2});
+            Memory::Initialize((Storage() + Size()), Memory::Move(tmp));
+        } else {
+            Memory::Initialize((Storage() + Size()), Memory::Move(item));
         }
 
-        Memory::Initialize((Storage() + Size()), Memory::Move(item));
         ++index_;
     }
 
     inline void operator+=(const Type_T &item) {
         if (Size() == Capacity()) {
+            // item can be an element of this array: copy it before the storage moves.
+            Type_T tmp{item};
             resize((Capacity() | (Capacity() == 0)) * SizeT{2});
+            Memory::Initialize((Storage() + Size()), Memory::Move(tmp));
+        } else {
+            Memory::Initialize((Storage() + Size()), item);
         }
 
-        Memory::Initialize((Storage() + Size()), item);
         ++index_;
     }
 
